@@ -557,7 +557,7 @@ impl Driver {
     async fn settle(&mut self) {
         let t0 = Instant::now();
         let mut stable = 0;
-        let need = if self.multi { 40 } else { 3 };
+        let need = if self.multi { 100 } else { 3 };
         loop {
             let a0 = self.hub.activity.load(Ordering::SeqCst);
             if self.multi {
@@ -869,7 +869,22 @@ async fn drive(job: ServerJob, hub: Arc<Hub>, jobno: u64, multi: bool) -> Vec<St
             // after the script (or after drift) finish the run with random releases
             _ => d.random_step(&mut rng).map(|s| (s, false)),
         };
-        let Some((st, scripted)) = next else { break };
+        let (st, scripted) = match next {
+            Some(x) => x,
+            None => {
+                // nothing to release: on the multi-thread runtime make sure this is not just a task that has not been
+                // given a CPU yet (loaded machine) before the run is declared over
+                if !multi {
+                    break;
+                }
+                tokio::time::sleep(Duration::from_millis(300)).await;
+                d.settle().await;
+                match d.random_step(&mut rng) {
+                    Some(s) => (s, false),
+                    None => break,
+                }
+            }
+        };
         if st.g == "api"
             && !matches!(st.what.as_deref(), Some("schedule") | Some("cancel"))
             && !d.stray_allowed(st.c, st.p, st.what.as_deref().unwrap_or(""))
